@@ -26,12 +26,12 @@ theorem freshStrict_cls {i : Idiom} (h : freshStrict i = true) : i.cls = .fresh 
 
 def allSame : List SameSite :=
   [.arrFlatten1, .arrUnique0, .arrUnique1, .hashDelete1, .hashDeleteAll0, .hashUnique0, .hashEntries0]
-def allWin : List WinSite := [.arrSlice, .hashSlice]
+def allWin : List WinSite := [.arrSlice, .hashSlice, .arrEachSlice]
 def allNew : List NewSite :=
   [.arrAdd, .arrAddAll, .arrDelete, .arrDeleteAll, .arrMap, .arrSelect, .arrReject, .arrSort, .arrFlatten0, .arrUnique2,
    .hashAdd0, .hashAdd1, .hashAddAll0, .hashDelete0, .hashDeleteAll1, .hashMap, .hashMapValues, .hashSelect, .hashReject,
    .hashSelectPairs, .hashRejectPairs, .hashMerge, .hashSort, .hashFlatten0, .hashFlatten1, .hashKeys, .hashValues,
-   .mutPutAll]
+   .mutPutAll, .hashEachSlice, .hashAsArray]
 def allCtor : List CtorSite := [.wrapValues, .wrapHash, .buildArray, .buildHash, .newMutable]
 
 theorem allSame_complete (s : SameSite) : s ∈ allSame := by cases s <;> simp [allSame]
